@@ -39,6 +39,16 @@ func (i *IRCServer) cmdServerJoin(s *Session, reply *Replyctx, msg *irc.Message)
 		// TODO(secure): reduce code duplication with cmdJoin()
 		c, ok := i.channels[ChanToLower(channelname)]
 		if !ok {
+			// Like in cmdJoin: the channel limit also applies to channels
+			// which are created by services.
+			if got, limit := uint64(len(i.channels)), i.ChannelLimit(); got >= limit && limit > 0 {
+				i.sendServices(reply, &irc.Message{
+					Prefix:  i.ServerPrefix,
+					Command: irc.ERR_NOSUCHCHANNEL,
+					Params:  []string{msg.Prefix.Name, channelname, "No such channel"},
+				})
+				continue
+			}
 			c = &channel{
 				name:  channelname,
 				nicks: make(map[lcNick]*[maxChanMemberStatus]bool),
